@@ -1,0 +1,5 @@
+//go:build !verif
+
+package tiered
+
+func verifPoint(string, string) {}
